@@ -31,9 +31,10 @@ def nb_text(cid):
 
 def cid_of(text):
     if text is None: return None
-    m = re.search(r'(MARK|KRAM)(\d+)', text)
+    m = re.search(r'(MARK|KR[A-D]M)(\d+)', text)
     if not m: return -1
-    return int(m.group(2)) + (100000 if m.group(1) == 'KRAM' else 0)
+    # KRAM<n>, KRBM<n>, ...: the content MARK<n> after the clean-filter driver 0, 1, ... (DRIVERS below)
+    return int(m.group(2)) + (100000 * (1 + 'ABCD'.index(m.group(1)[2])) if m.group(1) != 'MARK' else 0)
 
 
 def git(cwd, *args, check=True, binary=False):
@@ -48,6 +49,9 @@ def git_rc(cwd, *args):
 
 
 FILTER_CMD = 'sed s/MARK/KRAM/'
+
+# several distinguishable clean-filter drivers, for repositories whose configuration defines filter.nbv.clean more than once
+DRIVERS = [FILTER_CMD, 'sed s/MARK/KRBM/', 'sed s/MARK/KRCM/', 'sed s/MARK/KRDM/']
 
 ROOT_MARK = '{ROOT}'
 
@@ -64,12 +68,74 @@ def expand_all(words, root):
     return [expand(w, root) for w in words]
 
 
-def build(base, sc):
+def set_git_env(env):
+    """git configuration sources of the scenario being run: for the git commands of this file (GIT_ENV) and for the ones
+    nbdime and GitPython start (os.environ)"""
+    for k, v in env.items():
+        GIT_ENV[k] = v; os.environ[k] = v
+
+
+def restore_git_env(saved):
+    for d, old in ((GIT_ENV, saved[0]), (os.environ, saved[1])):
+        for k in [k for k in d if k.startswith('GIT_CONFIG')]: del d[k]
+        for k, v in old.items(): d[k] = v
+
+
+def save_git_env():
+    return ({k: v for k, v in GIT_ENV.items() if k.startswith('GIT_CONFIG')}, {k: v for k, v in os.environ.items() if k.startswith('GIT_CONFIG')})
+
+
+def configure_filter(root, steps, cfgdir):
+    """filter.nbv.clean defined by a SEQUENCE of configuration steps [level, how, driver], applied in order:
+      level   local (.git/config) | global ($GIT_CONFIG_GLOBAL, a file of the scenario) | system ($GIT_CONFIG_SYSTEM, likewise)
+              | include-local / include-global (a file of its own, pulled in by an [include] appended at this point of the
+              repository / global file) | env (GIT_CONFIG_COUNT/KEY/VALUE, what `git -c` hands to child processes)
+      how     add (`git config --add`) | set (`git config --replace-all`) | raw (a further [filter "nbv"] section appended)
+              | rawcase (the same spelled [FILTER "nbv"] CLEAN = ...); ignored for include-* and env
+      driver  index into DRIVERS, or None for an empty value
+    Which value is in force is for git to say (the judge asks git hash-object); nothing here computes it."""
+    local = os.path.join(root, '.git', 'config')
+    files = {'local': local, 'global': os.path.join(cfgdir, 'global.gitconfig'), 'system': os.path.join(cfgdir, 'system.gitconfig')}
+    levels = {s[0] for s in steps}
+    env = {}
+    if levels & {'global', 'include-global'}:
+        env['GIT_CONFIG_GLOBAL'] = files['global']; open(files['global'], 'a').close()
+    if 'system' in levels:
+        env['GIT_CONFIG_SYSTEM'] = files['system']; env['GIT_CONFIG_NOSYSTEM'] = '0'; open(files['system'], 'a').close()
+    envvals = []
+    for k, (level, how, d) in enumerate(steps):
+        val = '' if d is None else DRIVERS[d]
+        if level == 'env':
+            envvals.append(val)
+        elif level in ('include-local', 'include-global'):
+            host = files[level[len('include-'):]]
+            inc = os.path.join(os.path.dirname(host), 'nbv_inc%d.cfg' % k)
+            with open(inc, 'w') as f: f.write('[filter "nbv"]\n\tclean = "%s"\n' % val)
+            # relative to the including file (repository) or absolute (global)
+            with open(host, 'a') as f: f.write('[include]\n\tpath = %s\n' % (os.path.basename(inc) if level == 'include-local' else inc))
+        elif how in ('add', 'set'):
+            git(root, 'config', '--file', files[level], '--add' if how == 'add' else '--replace-all', 'filter.nbv.clean', val)
+        elif how in ('raw', 'rawcase'):
+            with open(files[level], 'a') as f:
+                f.write(('[FILTER "nbv"]\n\tCLEAN = "%s"\n' if how == 'rawcase' else '[filter "nbv"]\n\tclean = "%s"\n') % val)
+        else:
+            raise RuntimeError('unknown filter configuration step %r' % ([level, how, d],))
+    if envvals:
+        env['GIT_CONFIG_COUNT'] = str(len(envvals))
+        for i, v in enumerate(envvals):
+            env['GIT_CONFIG_KEY_%d' % i] = 'filter.nbv.clean'; env['GIT_CONFIG_VALUE_%d' % i] = v
+    return env
+
+
+def build(base, sc, cfgdir=None):
     root = os.path.join(base, *sc['root_rel'].split('/'))
     os.makedirs(root)
     git(root, 'init', '-q', '-b', 'main', '.')
     if sc.get('filter'):
-        git(root, 'config', 'filter.nbv.clean', FILTER_CMD)
+        if sc.get('filter_config'):
+            set_git_env(configure_filter(root, sc['filter_config'], cfgdir))
+        else:
+            git(root, 'config', 'filter.nbv.clean', FILTER_CMD)
         with open(os.path.join(root, '.gitattributes'), 'w') as f:
             f.write('%s filter=nbv\n' % sc['filter'])
     n = 0
@@ -154,6 +220,15 @@ def run_filter(cmd, text):
     return subprocess.run(cmd, shell=True, input=text.encode(), capture_output=True).stdout.decode()
 
 
+def git_cleaned(root, path):
+    """the content git itself compares for the working-tree file at `path` (relative to the root): the blob
+    `git hash-object --path` makes of the file, i.e. after the clean filter GIT runs for that path; None if there is no file"""
+    p = subprocess.run(['git', 'hash-object', '-w', '--path=' + path, os.path.join(root, *path.split('/'))], cwd=root, env=GIT_ENV, capture_output=True)
+    if p.returncode != 0: return None
+    q = subprocess.run(['git', 'cat-file', 'blob', p.stdout.decode().strip()], cwd=root, env=GIT_ENV, capture_output=True)
+    return q.stdout.decode('utf-8', 'replace') if q.returncode == 0 else None
+
+
 def parse_z(out, raw):
     toks = out.split('\x00')
     if toks and toks[-1] == '': toks.pop()
@@ -177,6 +252,8 @@ def parse_z(out, raw):
 def git_facts(base, root, cwd, sc, ra, rb, paths, popped):
     """everything the judge and the model need, from the git command line alone"""
     facts = {}
+    # filter.nbv.clean configured by a sequence of steps (possibly several values): the cleaned content is asked of git
+    multi = bool(sc.get('filter') and sc.get('filter_config'))
     da = diff_args(ra, rb)
     pa = (['--'] + list(paths)) if paths else []
     # T2: what git reports, asked from the caller's directory with the caller's paths
@@ -212,7 +289,7 @@ def git_facts(base, root, cwd, sc, ra, rb, paths, popped):
             t = side_text(root, ref, path)
             if t is not None and ref == 'WORKTREE':
                 cmd = filter_of(root, path)
-                if cmd: t = run_filter(cmd, t)
+                if cmd: t = git_cleaned(root, path) if multi else run_filter(cmd, t)
             cont[key] = cid_of(t)
     facts['contents'] = [[k.split('\x00')[0], k.split('\x00')[1], v] for k, v in sorted(cont.items())]
     # filter table at the root, for every path in the raw entries
@@ -224,8 +301,22 @@ def git_facts(base, root, cwd, sc, ra, rb, paths, popped):
             if not cmd: ft[path] = None
             else:
                 t = side_text(root, 'WORKTREE', path)
-                ft[path] = 'raise' if t is None else cid_of(run_filter(cmd, t))
+                ft[path] = 'raise' if t is None else cid_of(git_cleaned(root, path) if multi else run_filter(cmd, t))
     facts['filter_at_root'] = ft
+    if multi:
+        # for the evidence: every value git lists, in git's order, with the file it comes from; and a cross-check of the
+        # two independent readings of "what git cleans" (hash-object vs. the last listed value run by hand) on every file
+        p = subprocess.run(['git', 'config', '--show-scope', '--get-all', '-z', 'filter.nbv.clean'], cwd=root, env=GIT_ENV, capture_output=True)
+        toks = p.stdout.decode('utf-8', 'replace').split('\x00')
+        facts['clean_values'] = [[toks[i], toks[i + 1]] for i in range(0, len(toks) - 1, 2)]
+        dis = []
+        for path in sorted({x for r in raw for x in (r['a'], r['b'])}):
+            t = side_text(root, 'WORKTREE', path)
+            if t is None: continue
+            cmd = filter_of(root, path)
+            byhand = cid_of(run_filter(cmd, t) if cmd else t); bygit = cid_of(git_cleaned(root, path))
+            if byhand != bygit: dis.append([path, byhand, bygit])
+        facts['clean_oracles_disagree'] = dis
     facts['snapshot'] = snapshot(base)
     return facts
 
@@ -320,8 +411,10 @@ def is_ref_table(cwd, words, root=None):
 def one(sc, home):
     base = os.path.realpath(tempfile.mkdtemp(prefix='nbv_c17_'))
     here = os.getcwd()
+    saved = save_git_env()
+    cfgdir = tempfile.mkdtemp(prefix='cfg_', dir=home) if sc.get('filter_config') else None
     try:
-        root = build(base, sc)
+        root = build(base, sc, cfgdir)
         q = sc['query']
         popped = [c for c in q['cwd'].split('/') if c]
         cwd = os.path.join(root, *popped)
@@ -340,7 +433,9 @@ def one(sc, home):
         return {'err': 'RunnerError', 'msg': '%s: %s' % (type(e).__name__, str(e)[:500]), 'tb': traceback.format_exc()[-800:]}
     finally:
         os.chdir(here)
+        restore_git_env(saved)
         shutil.rmtree(base, ignore_errors=True)
+        if cfgdir: shutil.rmtree(cfgdir, ignore_errors=True)
 
 
 def main():
